@@ -321,6 +321,9 @@ SPECS["C15"] = dict(
         "Woodpile.Props.C15.run_refines_list",
         "Woodpile.Props.C15.run_from_new",
         "Woodpile.Props.C15.run_snoc",
+        "Woodpile.Props.C15.zdeque_step_is_length_image",
+        "Woodpile.Props.C15.zdeque_run_is_length_image",
+        "Woodpile.Props.C15.zdeque_run_spec",
     ],
     families=[dict(name="sdeque", quick=3000, thorough=200000)],
     technique="Lean 4 proof (representation invariant = check_rep, per-operation refinement of a List deque, induction over "
